@@ -242,7 +242,7 @@ func realize(node map[string]json.RawMessage) []byte {
 		if len(h) != 32 {
 			return make([]byte, 64)
 		}
-		aux := 0
+		var aux uint64
 		fmt.Sscan(s.Aux, &aux)
 		return SchnorrSign(secp256k1.NewPrivateKey(scalarOf(s.Priv)), h, aux).Serialize()
 	}
@@ -413,7 +413,7 @@ func BytesEq(a, b []byte) bool                 { return string(a) == string(b) }
 
 // SchnorrSign signs with a deterministic but aux-dependent nonce so that distinct aux values give
 // distinct valid signatures of the same key over the same hash.
-func SchnorrSign(p *secp256k1.PrivateKey, hash []byte, aux int) *schnorr.Signature {
+func SchnorrSign(p *secp256k1.PrivateKey, hash []byte, aux uint64) *schnorr.Signature {
 	var sig *schnorr.Signature
 	var err error
 	if aux == 0 {
@@ -543,6 +543,7 @@ func SqlRowU64(db *sql.DB, table string, i int, col string) uint64 {
 
 func PickStr(idx uint64, options ...string) string { return options[idx] }
 func PickU64(idx uint64, options ...uint64) uint64 { return options[idx] }
+func PickBytes(idx uint64, options ...[]byte) []byte { return options[idx] }
 func PickPriv(idx uint64, options ...*secp256k1.PrivateKey) *secp256k1.PrivateKey {
 	return options[idx]
 }
